@@ -3,6 +3,7 @@ import logging
 import fnmatch
 import itertools
 import json
+import threading
 from functools import partial
 from copy import deepcopy
 import types
@@ -24,6 +25,8 @@ __all__.extend(["RUN_DEFAULTS_KEY"])
 
 RUN_DEFAULTS_KEY = "strax_defaults"
 TEMP_DATA_TYPE_PREFIX = "_temp_"
+# Guards the creation of Context._fixed_plugin_cache (module level: contexts stay picklable)
+_PLUGIN_CACHE_LOCK = threading.Lock()
 NOT_PER_CHUNK_ALLOWED_PLUGINS = (strax.LoopPlugin, strax.OverlapWindowPlugin)
 
 # use tqdm as loaded in utils (from tqdm.notebook when in a jupyter env)
@@ -763,16 +766,22 @@ class Context:
             # There is no point in caching if plugins (lineage) can change per run
             return
         context_hash = self._context_hash()
-        if self._fixed_plugin_cache is None:
-            self._fixed_plugin_cache = {context_hash: dict()}
-        elif context_hash not in self._fixed_plugin_cache:
-            # Create a new cache every time the hash is not matching to
-            # save memory. If a config changes, building the cache again
-            # should be fast, we just need to track which cache to use.
-            self.log.info("Replacing context._fixed_plugin_cache since plugins/versions changed")
-            self._fixed_plugin_cache = {context_hash: dict()}
+        # One context may be shared by the workers of multi_run: check and
+        # create atomically, else a worker replaces a cache others filled.
+        with _PLUGIN_CACHE_LOCK:
+            if self._fixed_plugin_cache is None:
+                self._fixed_plugin_cache = {context_hash: dict()}
+            elif context_hash not in self._fixed_plugin_cache:
+                # Create a new cache every time the hash is not matching to
+                # save memory. If a config changes, building the cache again
+                # should be fast, we just need to track which cache to use.
+                self.log.info(
+                    "Replacing context._fixed_plugin_cache since plugins/versions changed"
+                )
+                self._fixed_plugin_cache = {context_hash: dict()}
+            plugin_cache = self._fixed_plugin_cache[context_hash]
         for target, plugin in plugins.items():
-            self._fixed_plugin_cache[context_hash][target] = plugin
+            plugin_cache[target] = plugin
 
     def __get_requested_plugins_from_cache(
         self,
@@ -787,7 +796,8 @@ class Context:
         """
         requested_plugins = {}
         cached_plugins = self._fixed_plugin_cache[self._context_hash()]  # type: ignore
-        for target, plugin in cached_plugins.items():
+        # Iterate over a snapshot: another multi_run worker may add plugins
+        for target, plugin in cached_plugins.copy().items():
             if target in requested_plugins:
                 # If e.g. target is already seen because the plugin is
                 # multi output
